@@ -3216,7 +3216,11 @@ def _history_apply(cls, t, op, case, key, x, as_parameter=True):
         params = [q for q in t.parameters() if q.requires_grad]
         opt = torch.optim.SGD(params, lr=1e-3)
         with torch.enable_grad():
-            t(x).square().sum().backward()
+            out = t(x)
+            if not out.requires_grad:
+                raise Violation(f"no_grad_path:{case['entry'].split('.', 1)[0]}.history.step",
+                                "t(x) evaluated with autograd enabled does not require grad although the transformation has optimisable parameters")
+            out.square().sum().backward()
         opt.step()
         opt.zero_grad(set_to_none=bool(case.get("set_to_none", True)))
     elif op == "train":
